@@ -2,6 +2,7 @@ package postprocess
 
 import (
 	"bytes"
+	"slices"
 
 	"github.com/wundergraph/graphql-go-tools/v2/pkg/engine/resolve"
 )
@@ -54,6 +55,9 @@ func (m *mergeFields) traverseNode(node resolve.Node) {
 			// However, scalar fields can originate from different parent types, which is why we need to propagate them here
 			m.propagateParentTypeNames(n.Fields[i])
 		}
+		// 2b. a field without onTypeNames must not absorb a type-conditioned occurrence that is authorized
+		// under a coordinate of its own: the merge below keeps only the FieldInfo of the unconditioned field
+		m.splitFieldsWithOwnAuthorizationRule(n)
 		// 3. merge fields without onTypeNames "over" fields with onTypeNames
 		// This is possible because if a field exists without onTypeNames, it will always be resolved
 		// There are 2 variants of this:
@@ -122,6 +126,85 @@ func (m *mergeFields) traverseNode(node resolve.Node) {
 	case *resolve.Array:
 		m.traverseNode(n.Item)
 	}
+}
+
+// splitFieldsWithOwnAuthorizationRule handles `{ secret ... on User { secret } }` on an abstract parent when the
+// conditioned occurrence (User.secret) has an authorization rule that the unconditioned one (Node.secret)
+// does not carry under the same coordinate. Merging would drop the rule together with the conditioned field.
+// Instead, every conditioned field of that name is kept for its type (with the unconditioned selection merged in,
+// moved next to the unconditioned field to keep the response key order) and the unconditioned field is
+// restricted to the remaining possible types, so each object still renders the key exactly once.
+func (m *mergeFields) splitFieldsWithOwnAuthorizationRule(n *resolve.Object) {
+	if len(n.PossibleTypes) == 0 {
+		return
+	}
+	for i := 0; i < len(n.Fields); i++ {
+		field := n.Fields[i]
+		if field.OnTypeNames != nil {
+			continue
+		}
+		split := false
+		for _, other := range n.Fields {
+			if other.OnTypeNames != nil && bytes.Equal(field.Name, other.Name) && m.hasOwnAuthorizationRule(other, field) {
+				split = true
+				break
+			}
+		}
+		if !split {
+			continue
+		}
+		remaining := make(map[string]struct{}, len(n.PossibleTypes))
+		for typeName := range n.PossibleTypes {
+			remaining[typeName] = struct{}{}
+		}
+		fields := make([]*resolve.Field, 0, len(n.Fields))
+		var conditioned []*resolve.Field
+		for j, other := range n.Fields {
+			if other.OnTypeNames == nil || !bytes.Equal(field.Name, other.Name) {
+				fields = append(fields, other)
+				continue
+			}
+			for _, typeName := range other.OnTypeNames {
+				delete(remaining, string(typeName))
+			}
+			m.mergeValues(other, &resolve.Field{Value: field.Value.Copy()})
+			if j < i {
+				fields = append(fields, other)
+			} else {
+				conditioned = append(conditioned, other)
+			}
+		}
+		typeNames := make([]string, 0, len(remaining))
+		for typeName := range remaining {
+			typeNames = append(typeNames, typeName)
+		}
+		slices.Sort(typeNames)
+		field.OnTypeNames = make([][]byte, 0, len(typeNames))
+		for _, typeName := range typeNames {
+			field.OnTypeNames = append(field.OnTypeNames, []byte(typeName))
+		}
+		n.Fields = n.Fields[:0]
+		for _, other := range fields {
+			if other != field {
+				n.Fields = append(n.Fields, other)
+				continue
+			}
+			if len(typeNames) > 0 {
+				n.Fields = append(n.Fields, field)
+			}
+			n.Fields = append(n.Fields, conditioned...)
+		}
+		m.propagateParentTypeNames(field)
+		i = -1 // the slice was rebuilt; fields handled so far have onTypeNames now
+	}
+}
+
+// hasOwnAuthorizationRule reports whether field is authorized under a coordinate that other does not enforce
+func (m *mergeFields) hasOwnAuthorizationRule(field, other *resolve.Field) bool {
+	if field.Info == nil || !field.Info.HasAuthorizationRule {
+		return false
+	}
+	return other.Info == nil || !other.Info.HasAuthorizationRule || other.Info.ExactParentTypeName != field.Info.ExactParentTypeName
 }
 
 func (m *mergeFields) canMergeScalars(left, right *resolve.Field) bool {
